@@ -59,7 +59,7 @@ def check(run, driver):
             run.prop_fail("estimate changes under translation of the sample", case, {**sig, "clause": "translation"}, {"base": h, "shifted": hs, "shift": t})
         # "arbitrary shifts": far from the origin (coordinates such as 4 194 304.37 with unit spread); exact power-of-two offsets, and
         # the un-shifted sample is taken as (X + t) - t so that both samples are exactly representable translates of each other
-        tb = 2.0 ** rng.integers(12, 25, size=d) * rng.choice([-1.0, 1.0], size=d) * 2.0 ** round(math.log2(scale))
+        tb = 2.0 ** rng.integers(6, 25, size=d) * rng.choice([-1.0, 1.0], size=d) * 2.0 ** round(math.log2(scale))
         Xs = X + tb; Xq = Xs - tb
         hq, hb = H(Xq, k), H(Xs, k)
         if abs(hb - hq) > TOL:
